@@ -10,6 +10,8 @@
 package tbls
 
 import (
+	"bytes"
+	"encoding/hex"
 	"fmt"
 	"math/big"
 	"math/rand"
@@ -115,10 +117,21 @@ type Scenario struct {
 	J      int      `json:"j,omitempty"`      // substituted position
 	K      int      `json:"k,omitempty"`      // other index
 	Foreign string  `json:"foreign,omitempty"` // foreign secret for wrong_share
-	Msg    string   `json:"msg"`
-	Msg2   string   `json:"msg2,omitempty"`
+	Msg    string   `json:"msg_hex"`            // message, hex (lengths 0, 1, 31, 32, 33, 64, 96 are cycled)
+	Msg2   string   `json:"msg2_hex,omitempty"` // the other message of wrong_message, related to Msg
+	Calls  []Call   `json:"calls,omitempty"`    // kind "sequence": the call sequence against the process-wide tbls implementation
 	Shares []string `json:"shares,omitempty"` // explicit shares of ids 1..n (ThresholdSplit output) instead of Coeffs
 	Shape  string   `json:"shape,omitempty"`
+}
+
+// Call is one Verify / VerifyAggregate call of a stateful sequence with the verdict the (pure) model gives.
+type Call struct {
+	Op     string   `json:"op"` // verify | verify_aggregate
+	PKs    []string `json:"pks_hex"`
+	Msg    string   `json:"msg_hex"`
+	Sig    string   `json:"sig_hex"`
+	Expect bool     `json:"expect"`
+	Note   string   `json:"note"`
 }
 
 type Violation struct {
@@ -138,6 +151,9 @@ type Out struct {
 	Violations []Violation    `json:"violations"`
 	Dist       map[string]int `json:"dist"`
 	Broken     []string       `json:"broken"` // correspondence breaks that are not property violations
+	HistCalls  int            `json:"history_calls"`
+	HistBlocks int            `json:"history_blocks"`
+	HistStats  map[string]int `json:"history_stats"`
 	Distinct   int            `json:"distinct_scenarios"`
 	Samples    []Scenario     `json:"samples"`
 }
@@ -232,6 +248,9 @@ func pick(sh map[int]rtbls.PrivateKey, s []int) map[int]rtbls.PrivateKey {
 // and whether the scenario was a degenerate one in which the substituted combination is expected to verify.
 func runScenario(t *testing.T, s Scenario) (string, bool) {
 	t.Helper()
+	if s.Kind == "sequence" {
+		return runCalls(s.Calls), false
+	}
 	secret := undec(s.Secret)
 	var script []*big.Int
 	for _, c := range s.Coeffs {
@@ -250,7 +269,7 @@ func runScenario(t *testing.T, s Scenario) (string, bool) {
 			return "split failed: " + err.Error(), false
 		}
 	}
-	msg := []byte(s.Msg)
+	msg := unhex(s.Msg)
 	groupPK, err := rtbls.SecretToPublicKey(sc(secret))
 	if err != nil {
 		return "group public key: " + err.Error(), false
@@ -326,7 +345,7 @@ func runScenario(t *testing.T, s Scenario) (string, bool) {
 		sigs[s.K] = sigOf(sh[s.J], msg)
 		expect = bi(sh[s.K]).Cmp(bi(sh[s.J])) == 0
 	case "wrong_message":
-		sigs[s.J] = sigOf(sh[s.J], []byte(s.Msg2))
+		sigs[s.J] = sigOf(sh[s.J], unhex(s.Msg2))
 		expect = bi(sh[s.J]).Sign() == 0 || s.Msg2 == s.Msg
 	default:
 		return "unknown scenario kind " + s.Kind, false
@@ -357,6 +376,336 @@ func notIn(s []int, n int) []int {
 		}
 	}
 	return out
+}
+
+func unhex(s string) []byte {
+	b, err := hex.DecodeString(s)
+	if err != nil {
+		panic("bad hex " + s)
+	}
+	return b
+}
+
+var msgLens = []int{0, 1, 31, 32, 33, 64, 96}
+
+func randMsg(r *rand.Rand, n int) []byte {
+	b := make([]byte, n)
+	r.Read(b)
+	return b
+}
+
+func cat(bs ...[]byte) []byte {
+	var out []byte
+	for _, b := range bs {
+		out = append(out, b...)
+	}
+	return out
+}
+
+// relatedMsgs returns messages different from a that share structure with it: same 32-byte prefix and
+// another / a longer tail, truncations, zero extensions, trailing zeros stripped, same tail and another prefix.
+func relatedMsgs(r *rand.Rand, a []byte) [][]byte {
+	var out [][]byte
+	add := func(b []byte) {
+		if bytes.Equal(a, b) {
+			return
+		}
+		for _, o := range out {
+			if bytes.Equal(o, b) {
+				return
+			}
+		}
+		out = append(out, b)
+	}
+	add(cat(a, randMsg(r, 1)))
+	add(cat(a, randMsg(r, 32)))
+	add(cat(a, []byte{0}))
+	add(cat(a, make([]byte, 32)))
+	if len(a) < 32 {
+		add(cat(a, make([]byte, 32-len(a))))           // zero-extended to 32 bytes
+		add(cat(a, make([]byte, 32-len(a)), randMsg(r, 8))) // ... and a tail
+	}
+	if len(a) > 32 {
+		add(a[:32])
+		f := append([]byte(nil), a...)
+		f[32] ^= 0x01 // same 32-byte prefix, other tail
+		add(f)
+		f = append([]byte(nil), a...)
+		f[len(f)-1] ^= 0x80
+		add(f)
+		add(cat(a[:32], randMsg(r, len(a)-32)))
+	}
+	if len(a) > 0 {
+		add(a[:len(a)-1])
+		add(a[1:])
+		add([]byte{})
+		f := append([]byte(nil), a...)
+		f[0] ^= 0x01 // same tail, other prefix
+		add(f)
+		z := a
+		for len(z) > 0 && z[len(z)-1] == 0 {
+			z = z[:len(z)-1]
+		}
+		add(z) // trailing zeros stripped
+	}
+	if len(a) > 31 {
+		add(a[:31])
+	}
+	return out
+}
+
+func pkHex(pks []rtbls.PublicKey) []string {
+	out := make([]string, len(pks))
+	for i, p := range pks {
+		out[i] = hex.EncodeToString(p[:])
+	}
+	return out
+}
+
+// doCall performs one call against the process-wide implementation and returns its verdict.
+func doCall(c Call) (bool, string) {
+	var sig rtbls.Signature
+	sb := unhex(c.Sig)
+	if len(sb) != len(sig) {
+		return false, "bad signature length"
+	}
+	copy(sig[:], sb)
+	var pks []rtbls.PublicKey
+	for _, h := range c.PKs {
+		var pk rtbls.PublicKey
+		b := unhex(h)
+		if len(b) != len(pk) {
+			return false, "bad public key length"
+		}
+		copy(pk[:], b)
+		pks = append(pks, pk)
+	}
+	switch c.Op {
+	case "verify":
+		return rtbls.Verify(pks[0], unhex(c.Msg), sig) == nil, ""
+	case "verify_aggregate":
+		return rtbls.VerifyAggregate(pks, sig, unhex(c.Msg)) == nil, ""
+	}
+	return false, "unknown op " + c.Op
+}
+
+// runCalls replays a call sequence; "" if every verdict is the model's.
+func runCalls(calls []Call) string {
+	for i, c := range calls {
+		got, bad := doCall(c)
+		if bad != "" {
+			return bad
+		}
+		if got != c.Expect {
+			return fmt.Sprintf("call %d of the sequence (%s, %d-byte message; %s): verdict %v, the pure verification function gives %v", i, c.Op, len(c.Msg)/2, c.Note, got, c.Expect)
+		}
+	}
+	return ""
+}
+
+// entity: a key whose discrete logarithm the harness knows.
+type entity struct {
+	name string
+	sk   *big.Int
+	pk   rtbls.PublicKey
+}
+
+type sigInfo struct {
+	sk  *big.Int // discrete log of the signature w.r.t. H(msg): sum of the signers' secrets
+	msg []byte
+	sig rtbls.Signature
+	by  string
+}
+
+// historyBlock builds and runs one stateful sequence: after every successful verification the same
+// signature is re-offered for related messages and related public keys, wrong calls are repeated, and
+// positives are re-checked. Returns the calls made and the description of the first wrong verdict.
+func historyBlock(t *testing.T, r *rand.Rand, n, th, msgLen int, trailingZeros bool) ([]Call, string, map[string]int) {
+	t.Helper()
+	stats := map[string]int{}
+	secret := randScalar(r)
+	if secret.Sign() == 0 {
+		secret.SetInt64(1)
+	}
+	sh, _, err := splitInsecure(t, secret, n, th, nil, r)
+	if err != nil {
+		return nil, "split: " + err.Error(), stats
+	}
+	mk := func(name string, v *big.Int) (entity, bool) {
+		pk, err := rtbls.SecretToPublicKey(sc(v))
+		return entity{name: name, sk: v, pk: pk}, err == nil
+	}
+	group, _ := mk("group", secret)
+	var shares []entity
+	for i := 1; i <= n; i++ {
+		if e, ok := mk(fmt.Sprintf("share%d", i), bi(sh[i])); ok {
+			shares = append(shares, e)
+		}
+	}
+	foreign, _ := mk("foreign", randScalar(r))
+	if len(shares) < 2 {
+		return nil, "", stats
+	}
+	a := randMsg(r, msgLen)
+	if trailingZeros && msgLen >= 3 {
+		a[msgLen-1], a[msgLen-2] = 0, 0
+	}
+	rel := relatedMsgs(r, a)
+
+	var calls []Call
+	fail := ""
+	verify := func(pk entity, m []byte, s sigInfo, note string) bool {
+		if fail != "" {
+			return false
+		}
+		c := Call{Op: "verify", PKs: pkHex([]rtbls.PublicKey{pk.pk}), Msg: hex.EncodeToString(m), Sig: hex.EncodeToString(s.sig[:]),
+			Expect: pk.sk.Cmp(s.sk) == 0 && bytes.Equal(m, s.msg),
+			Note:   fmt.Sprintf("%s; public key of %s, signature by %s over a %d-byte message", note, pk.name, s.by, len(s.msg))}
+		calls = append(calls, c)
+		got, _ := doCall(c)
+		stats[fmt.Sprintf("verify_expect_%v", c.Expect)]++
+		if got != c.Expect {
+			fail = fmt.Sprintf("call %d of the sequence (Verify, %d-byte message; %s): verdict %v, the pure verification function gives %v", len(calls)-1, len(m), c.Note, got, c.Expect)
+		}
+		return got
+	}
+	sign := func(e entity, m []byte) sigInfo {
+		sg, err := rtbls.Sign(sc(e.sk), m)
+		if err != nil {
+			t.Fatalf("sign: %v", err)
+		}
+		return sigInfo{sk: e.sk, msg: m, sig: sg, by: e.name}
+	}
+	// the group signature obtained by threshold aggregation over a random subset of >= t shares
+	thresholdSig := func(m []byte) sigInfo {
+		sub := randSubset(r, n, th+r.Intn(n-th+1))
+		ps := map[int]rtbls.Signature{}
+		for _, i := range sub {
+			sg, err := rtbls.Sign(sh[i], m)
+			if err != nil {
+				t.Fatalf("sign: %v", err)
+			}
+			ps[i] = sg
+		}
+		agg, err := rtbls.ThresholdAggregate(ps)
+		if err != nil {
+			t.Fatalf("aggregate: %v", err)
+		}
+		return sigInfo{sk: secret, msg: m, sig: agg, by: fmt.Sprintf("threshold aggregate of shares %v", sub)}
+	}
+
+	type signer struct {
+		e   entity
+		sig func(m []byte) sigInfo
+	}
+	others := func(e entity) []entity {
+		var out []entity
+		for _, o := range append([]entity{group, foreign}, shares...) {
+			if o.name != e.name {
+				out = append(out, o)
+			}
+		}
+		r.Shuffle(len(out), func(i, j int) { out[i], out[j] = out[j], out[i] })
+		if len(out) > 3 {
+			out = out[:3]
+		}
+		return out
+	}
+	signers := []signer{
+		{group, thresholdSig},
+		{shares[r.Intn(len(shares))], nil},
+		{foreign, nil},
+	}
+	for _, sg := range signers {
+		e := sg.e
+		mkSig := sg.sig
+		if mkSig == nil {
+			mkSig = func(m []byte) sigInfo { return sign(e, m) }
+		}
+		sa := mkSig(a)
+		verify(e, rel[0], sa, "before any success: related message")
+		verify(e, a, sa, "first verification")
+		for _, b := range rel {
+			verify(e, b, sa, "after the success: same signature, related message")
+			verify(e, b, sa, "repeat of the wrong call")
+		}
+		verify(e, a, sa, "the valid call again")
+		for _, o := range others(e) {
+			verify(o, a, sa, "after the success: same signature and message, related public key")
+			verify(o, a, sa, "repeat of the wrong call")
+			so := sign(o, a)
+			verify(o, a, so, "valid call for the related public key")
+			verify(e, a, so, "signature of the related key under the first public key")
+			verify(o, a, sa, "wrong call once more after the related key's success")
+		}
+		for k, b := range rel {
+			if k%3 != 0 {
+				continue
+			}
+			sb := mkSig(b)
+			verify(e, b, sb, "valid call for a related message")
+			verify(e, a, sb, "signature over the related message offered for the first message")
+			verify(e, b, sa, "signature over the first message offered for the related message, again")
+			verify(e, a, sa, "the first valid call again")
+		}
+	}
+
+	// VerifyAggregate (FastAggregateVerify) over all public shares, as cluster.Lock.VerifySignatures uses it
+	if fail == "" && len(shares) == n {
+		aggOf := func(es []entity, m []byte) sigInfo {
+			var sgs []rtbls.Signature
+			sum := new(big.Int)
+			for _, e := range es {
+				sgs = append(sgs, sign(e, m).sig)
+				sum.Add(sum, e.sk)
+			}
+			ag, err := rtbls.Aggregate(sgs)
+			if err != nil {
+				t.Fatalf("aggregate: %v", err)
+			}
+			return sigInfo{sk: sum.Mod(sum, order), msg: m, sig: ag, by: fmt.Sprintf("aggregate of %d signers", len(es))}
+		}
+		vagg := func(es []entity, m []byte, s sigInfo, note string) {
+			if fail != "" {
+				return
+			}
+			var pks []rtbls.PublicKey
+			sum := new(big.Int)
+			for _, e := range es {
+				pks = append(pks, e.pk)
+				sum.Add(sum, e.sk)
+			}
+			sum.Mod(sum, order)
+			c := Call{Op: "verify_aggregate", PKs: pkHex(pks), Msg: hex.EncodeToString(m), Sig: hex.EncodeToString(s.sig[:]),
+				Expect: sum.Cmp(s.sk) == 0 && bytes.Equal(m, s.msg), Note: fmt.Sprintf("%s; %d public keys, signature: %s over a %d-byte message", note, len(es), s.by, len(s.msg))}
+			calls = append(calls, c)
+			got, _ := doCall(c)
+			stats[fmt.Sprintf("verify_aggregate_expect_%v", c.Expect)]++
+			if got != c.Expect {
+				fail = fmt.Sprintf("call %d of the sequence (VerifyAggregate, %d-byte message; %s): verdict %v, the pure verification function gives %v", len(calls)-1, len(m), c.Note, got, c.Expect)
+			}
+		}
+		sa := aggOf(shares, a)
+		vagg(shares, rel[0], sa, "before any success: related message")
+		vagg(shares, a, sa, "first verification")
+		for _, b := range rel {
+			vagg(shares, b, sa, "after the success: same signature, related message")
+			vagg(shares, b, sa, "repeat of the wrong call")
+		}
+		vagg(shares[1:], a, sa, "one public key dropped")
+		repl := append([]entity{foreign}, shares[1:]...)
+		vagg(repl, a, sa, "one public key replaced by a foreign one")
+		vagg(repl, a, sa, "repeat of the wrong call")
+		vagg(repl, a, aggOf(repl, a), "valid call for the related key set")
+		vagg(shares, a, sa, "the valid call again")
+		// a single-key aggregate equals a plain signature: the two entrances must not leak into each other
+		one := aggOf(shares[:1], a)
+		vagg(shares[:1], a, one, "single-key aggregate")
+		verify(shares[0], a, one, "plain Verify of the single-key aggregate")
+		verify(shares[0], rel[0], one, "... offered for a related message")
+		vagg(shares[:1], rel[0], one, "... and through VerifyAggregate")
+	}
+	return calls, fail, stats
 }
 
 func TestGen(t *testing.T) {
@@ -492,7 +841,7 @@ func TestGen(t *testing.T) {
 				}
 			}
 			for _, s := range subs {
-				eval(Scenario{Kind: "positive", Secret: dec(secret), N: n, T: th, S: s, Shares: l, Msg: "secure-split", Shape: "csprng"})
+				eval(Scenario{Kind: "positive", Secret: dec(secret), N: n, T: th, S: s, Shares: l, Msg: hex.EncodeToString(randMsg(r, msgLens[(n+th+len(s))%len(msgLens)])), Shape: "csprng"})
 			}
 		}
 	}
@@ -547,7 +896,15 @@ func TestGen(t *testing.T) {
 					out.Broken = append(out.Broken, fmt.Sprintf("ThresholdSplitInsecure(n=%d,t=%d): share %d of the scripted polynomial is not the model's value 0", n, th, zj))
 					zj = 0
 				}
-				base := Scenario{Shape: shape, Secret: dec(secret), Coeffs: decs(coeffs), N: n, T: th, Msg: fmt.Sprintf("msg-%d-%d-%s", n, th, shape), Msg2: fmt.Sprintf("other-%d-%d", n, th)}
+				base := Scenario{Shape: shape, Secret: dec(secret), Coeffs: decs(coeffs), N: n, T: th}
+				msgCtr := 0
+				nextMsgs := func() (string, string) { // message lengths are cycled; the other message is a related one
+					msgCtr++
+					m := randMsg(r, msgLens[(msgCtr+n+th)%len(msgLens)])
+					rel := relatedMsgs(r, m)
+					out.Dist[fmt.Sprintf("msg_len_%d", len(m))]++
+					return hex.EncodeToString(m), hex.EncodeToString(rel[r.Intn(len(rel))])
+				}
 
 				// subsets: exhaustive up to gmax, sampled above
 				var subs [][]int
@@ -561,6 +918,7 @@ func TestGen(t *testing.T) {
 				for _, s := range subs {
 					if len(s) >= th {
 						sc := base
+						sc.Msg, _ = nextMsgs()
 						sc.Kind, sc.S = "positive", s
 						eval(sc)
 					}
@@ -593,6 +951,7 @@ func TestGen(t *testing.T) {
 					}
 					for _, j := range js {
 						a := base
+						a.Msg, a.Msg2 = nextMsgs()
 						a.S, a.J = s, j
 						a.Kind, a.Foreign = "wrong_share", dec(randScalar(r))
 						eval(a)
@@ -624,6 +983,41 @@ func TestGen(t *testing.T) {
 			}
 		}
 	}
+	// ---- F. history independence: stateful call sequences against the process-wide implementation
+	out.HistStats = map[string]int{}
+	hmax := 5
+	if thorough {
+		hmax = 8
+	}
+	for n := 2; n <= hmax; n++ {
+		for th := 2; th <= n; th++ {
+			if !thorough && n > 3 && th != 2 && th != n && th != (n+2)/2 {
+				continue
+			}
+			for li, ml := range msgLens {
+				if !thorough && n > 3 && (li+n+th)%2 == 0 {
+					continue
+				}
+				for _, tz := range []bool{false, true} {
+					if tz && (ml < 3 || (!thorough && (n+th+li)%3 != 0)) {
+						continue
+					}
+					calls, fail, st := historyBlock(t, r, n, th, ml, tz)
+					out.HistBlocks++
+					out.HistCalls += len(calls)
+					for k, v := range st {
+						out.HistStats[k] += v
+					}
+					out.HistStats[fmt.Sprintf("msg_len_%d", ml)] += len(calls)
+					if fail != "" && len(out.Violations) < 20 {
+						out.Violations = append(out.Violations, Violation{Key: "history:verdict-depends-on-earlier-calls", What: fail,
+							Replay: Scenario{Kind: "sequence", N: n, T: th, Calls: calls}})
+					}
+				}
+			}
+		}
+	}
+
 	out.Distinct = len(seen)
 	if err := hx.WriteJSON("tbls_cases.json", out); err != nil {
 		t.Fatal(err)
